@@ -10,6 +10,7 @@
 #endif
 
 #include "system/Thread.h"
+#include "support/VerifHooks.h"
 #include "util/NetworkUtilityFunctions.h"
 #include "dataio/TCPSocketDataIO.h"  // to get the proper #includes for recv()'ing
 #include "system/SetupSystem.h"      // for GetCurrentThreadID()
@@ -131,6 +132,7 @@ status_t Thread :: StartInternalThreadAuxAux()
    try {
 # endif
       _thread = std::thread(InternalThreadEntryFunc, this);
+      (void) MUSCLE_VERIF_YIELD(muscle::verif::YIELD_THREAD_CREATED, this, 0);
       return B_NO_ERROR;
 # if !defined(MUSCLE_NO_EXCEPTIONS)
    }
@@ -186,6 +188,7 @@ status_t Thread :: SendMessageAux(int whichQueue, const MessageRef & replyRef)
       DECLARE_MUTEXGUARD(tsd._queueLock);
       MRETURN_ON_ERROR(tsd._messages.AddTail(replyRef));
       sendNotification = (tsd._messages.GetNumItems() == 1);
+      MUSCLE_VERIF_EVENT("Enqueue", &tsd, whichQueue, tsd._messages.GetNumItems(), sendNotification, replyRef()?1:0);
    }
 
    if (sendNotification)
@@ -222,6 +225,7 @@ void Thread :: SignalAux(int whichSocket)
          {
             const char junk = 'S';
             (void) send_ignore_eintr(fd, &junk, sizeof(junk), 0);
+            (void) MUSCLE_VERIF_YIELD(muscle::verif::YIELD_SOCK_SIGNAL, &_threadData[(whichSocket==MESSAGE_THREAD_OWNER)?MESSAGE_THREAD_INTERNAL:MESSAGE_THREAD_OWNER], 0);
          }
       }
    }
@@ -264,12 +268,14 @@ status_t Thread :: WaitForNextMessageAux(ThreadSpecificData & tsd, MessageRef & 
       // This won't block because we always set up the _messageSocket sockets to be in non-blocking mode.
       uint8 bytes[256];
       (void) recv_ignore_eintr(tsd._messageSocket.GetFileDescriptor(), (char *)bytes, sizeof(bytes), 0);
+      (void) MUSCLE_VERIF_YIELD(muscle::verif::YIELD_SOCK_DRAIN, &tsd, 0);
    }
 
    status_t ret;
    {
       DECLARE_MUTEXGUARD(tsd._queueLock);
       ret = tsd._messages.RemoveHead(ref);
+      MUSCLE_VERIF_EVENT("Dequeue", &tsd, (&tsd==&_threadData[MESSAGE_THREAD_OWNER])?MESSAGE_THREAD_OWNER:MESSAGE_THREAD_INTERNAL, ret.IsOK()?1:0, tsd._messages.GetNumItems(), 0);
       if (optRetNumMessagesLeftInQueue) *optRetNumMessagesLeftInQueue = tsd._messages.GetNumItems();
    }
 
@@ -300,6 +306,7 @@ status_t Thread :: WaitForNextMessageAux(ThreadSpecificData & tsd, MessageRef & 
       }
       (void) tsd._multiplexer.RegisterSocketForReadReady(msgfd);
 
+      if (MUSCLE_VERIF_YIELD(muscle::verif::YIELD_SOCK_WAIT, &tsd, (wakeupTime != MUSCLE_TIME_NEVER)) == 1) return B_TIMED_OUT;
       MRETURN_ON_ERROR(tsd._multiplexer.WaitForEvents(wakeupTime));
 
       ret = B_TIMED_OUT;
@@ -387,6 +394,7 @@ status_t Thread :: WaitForInternalThreadToExit()
    if (_threadRunning)
    {
       status_t ret;
+      (void) MUSCLE_VERIF_YIELD(muscle::verif::YIELD_THREAD_JOIN, this, 0);
 
 #if defined(MUSCLE_USE_CPLUSPLUS11_THREADS)
 # if !defined(MUSCLE_NO_EXCEPTIONS)
@@ -426,6 +434,7 @@ Thread * Thread :: GetCurrentThread()
 // This method is here to 'wrap' the internal thread's virtual method call with some standard setup/tear-down code of our own
 void Thread::InternalThreadEntryAux()
 {
+   (void) MUSCLE_VERIF_YIELD(muscle::verif::YIELD_THREAD_BEGIN, this, 0);
 #if defined(__linux__)
    _threadTid = syscall(SYS_gettid);  // was: gettid(), but some versions of libc didn't define that properly
 #endif
@@ -455,6 +464,7 @@ void Thread::InternalThreadEntryAux()
 
    InternalThreadEntry();
    _threadData[MESSAGE_THREAD_INTERNAL]._messageSocket.Reset();  // this will wake up the owner thread with EOF on socket
+   (void) MUSCLE_VERIF_YIELD(muscle::verif::YIELD_SOCK_CLOSE, &_threadData[MESSAGE_THREAD_OWNER], 0);
 
    {
       DECLARE_MUTEXGUARD(_curThreadsMutex);
@@ -462,6 +472,7 @@ void Thread::InternalThreadEntryAux()
    }
 
    _threadStackBase = NULL;
+   (void) MUSCLE_VERIF_YIELD(muscle::verif::YIELD_THREAD_END, this, 0);
 }
 
 Thread::muscle_thread_key Thread :: GetCurrentThreadKey()
